@@ -130,6 +130,12 @@ ATOMIC_QUEUE_OPS = {"append", "popleft", "clear"}
 def rule_prims(ctx: Ctx):
     rep, k = ctx.rep, ctx.k
     n = 0
+    # the protocol's argument rests on the queue being a collections.deque: append / popleft are atomic and strictly FIFO,
+    # so per-sender order is append order.  Any other container (or a class that re-orders, e.g. by who holds the lock)
+    # is outside what the rules below can vouch for.
+    rep.check(k.queue_ctor == "deque", "C06.prims", k.base.method("__init__").loc(),
+              "the queue shared by the senders is a collections.deque (atomic FIFO primitives)", "BaseEngine.__init__",
+              f"self.{k.queue_attr} = {k.queue_ctor}()")
     for fn in ctx.p.all_functions():
         parents = {}
         for node in ast.walk(fn.node):
@@ -175,4 +181,13 @@ def rule_prims(ctx: Ctx):
     rep.floor("C06.prims", "uses of the queue attribute", n, 6)
 
 
-RULES = [rule_order, rule_mutex, rule_nonblock, rule_recheck, rule_atomic_async, rule_prims]
+def rule_no_sticky_gate(ctx: Ctx):
+    """C06.nonblock: whether a sender becomes the consumer is decided by the lock alone.  An engine attribute written while
+    processing (a 'draining' flag ...) is a second, non-atomic gate: a sender can see it set after the consumer's last
+    re-check and leave its event stranded."""
+    from . import c04
+
+    c04.rule_nosticky(ctx, rule="C06.nonblock")
+
+
+RULES = [rule_order, rule_mutex, rule_nonblock, rule_recheck, rule_atomic_async, rule_prims, rule_no_sticky_gate]
